@@ -1,7 +1,7 @@
 //! Property registry: which units decide which property at which tier.
 
-use crate::e1::*;
-use crate::unit::*;
+use cvh::e1::*;
+use cvh::unit::*;
 use cvm::ast::*;
 use cvm::enumerate as en;
 use cvm::sem::Probes;
